@@ -233,15 +233,17 @@ def Step.paramsOK : Step → DMap → Prop
       (∀ f, fill = some f → f.variant.guard = true ∧ f.variant.op = .or)
   | .multiscale, _ => True
 
-/-- what must hold of the map entering a step, besides the invariant: only refinement asks for something -/
-def Step.entryOK : Step → DMap → Prop
-  | .refine D, m => refineReadyB D m = true
+/-- what must hold of the map entering a step, besides the invariant: only refinement asks for something — the map
+    is on the sample grid of its cost volume with every valid pixel inside its own interval (`refineReadyB`), and the
+    first / last disparity of that cost volume lie in the requested global interval `[lo, hi]` (they are its ends) -/
+def Step.entryOK (lo hi : Rat) : Step → DMap → Prop
+  | .refine D, m => refineReadyB D m = true ∧ lo ≤ D.P.dmin ∧ D.P.dmax ≤ hi
   | _, _ => True
 
 /-- the run is legal: every step has sound parameters and finds the map it needs -/
-def Legal : List Step → DMap → Prop
+def Legal (lo hi : Rat) : List Step → DMap → Prop
   | [], _ => True
-  | s :: ss, m => s.paramsOK m ∧ s.entryOK m ∧ ∀ m', runStep s m = some m' → Legal ss m'
+  | s :: ss, m => s.paramsOK m ∧ s.entryOK lo hi m ∧ ∀ m', runStep s m = some m' → Legal lo hi ss m'
 
 def Step.isRefine : Step → Bool
   | .refine _ => true
